@@ -63,6 +63,9 @@ func (d *DirectiveDefinition) shallowValidate() error {
 			return fmt.Errorf("illegal directive argument name: %v", name)
 		} else if referencesDirective(arg, d) {
 			return fmt.Errorf("directive is self-referencing via %v argument", name)
+		} else if arg.Type != nil && len(arg.Type.TypeRequiredFeatures()) > 0 {
+			// Directives are listed by introspection for every request.
+			return fmt.Errorf("directive argument %v requires features, but conditional directive arguments are not supported", name)
 		}
 	}
 	if len(d.Locations) == 0 {
